@@ -1,6 +1,7 @@
 package main
 
 import (
+	"crypto/sha256"
 	"io"
 
 	"github.com/sirupsen/logrus"
@@ -11,4 +12,9 @@ func discardLogger() *logrus.Entry {
 	l.Out = io.Discard
 	l.Level = logrus.PanicLevel
 	return logrus.NewEntry(l)
+}
+
+func sha(s string) []byte {
+	h := sha256.Sum256([]byte(s))
+	return h[:]
 }
